@@ -464,6 +464,22 @@ def prf_wiring(ctx, facts):
         def closure_arg(b, call, k):
             e = flow.expr_of(b, call[1]["args"][k], max_depth=4)
             return facts.bodies.get(e[1][1]) if e[0] == "agg" and isinstance(e[1], tuple) and e[1][0] == "closure" else None
+        # the rows are the function's second parameter, whatever it is called: find the name under which the async body
+        # captured it (positional, so that renaming the parameter changes nothing)
+        ROWS = "input_rows"
+        cur = main
+        for _ in range(3):
+            parent = facts.bodies.get(cur.path.rsplit("::{closure", 1)[0])
+            if parent is None:
+                break
+            from rules.C06 import upvar_sources
+            srcs = upvar_sources(facts, parent, cur.path)
+            hit = [nm for nm, ex in srcs.items() if flow.strip_casts(ex) == ("arg", 2)] if parent.path == base else [nm for nm, ex in srcs.items() if flow.strip_casts(ex) == ("upvar", ROWS)]
+            if parent.path == base:
+                if hit:
+                    ROWS = hit[0]
+                break
+            cur = parent
         # 1. converted match keys
         mk = None
         for b in tree:
@@ -499,9 +515,9 @@ def prf_wiring(ctx, facts):
         ok4 = False
         if len(z) == 1:
             a0, a1 = (flow.expr_of(main, x, max_depth=40) for x in z[0][1]["args"])
-            ok4 = a1 == ("call", "futures_util::stream::iter", (("upvar", "input_rows"),)) and "eval_dy_prf" not in str(a1) and "seq_join" in str(a0)[:400]
+            ok4 = a1 == ("call", "futures_util::stream::iter", (("upvar", ROWS),)) and "eval_dy_prf" not in str(a1) and "seq_join" in str(a0)[:400]
             pb = flow.find_calls(main, re.compile(r"chunks::process_slice_by_chunks$"))
-            ok4 = ok4 and len(pb) == 1 and flow.expr_of(main, pb[0][1]["args"][0], max_depth=4) == ("call", "std::ops::Deref::deref", (("upvar", "input_rows"),))
+            ok4 = ok4 and len(pb) == 1 and flow.expr_of(main, pb[0][1]["args"][0], max_depth=4) == ("call", "std::ops::Deref::deref", (("upvar", ROWS),))
         ctx.ob("WIRE-prf", "zip(prf values, the same rows)", ok4, "the PRF values computed from input_rows are zipped with input_rows itself, unfiltered and in order" if ok4 else "the PRF stream is not zipped with exactly the rows it was computed from (reordered, filtered or another table): reports get another report's PRF value", site_of(main, z[0][0]) if z else site_of(main))
         # 5. report construction
         ok5, why5, site5 = False, "no PrfHybridReport is built", site_of(main)
@@ -538,7 +554,7 @@ def prf_wiring(ctx, facts):
         ctx.ob("WIRE-prf", "route-by-prf-value-only", ok6, "destination = report.match_key % shard_count" if ok6 else "the destination shard is not a function of the PRF value and the shard count alone: helpers (or shards) disagree about where a report goes, or equal match keys land on different shards", site_of(pk) if pk is not None else site_of(main))
         # 7. sizes
         sp = flow.find_calls(main, re.compile(r"TotalRecords::specified$"))
-        ok7 = len(sp) == 2 and all((lambda e: e[0] == "call" and e[1].endswith("div_round_up") and e[2][0] == ("call", "std::vec::Vec::<T, A>::len", (("upvar", "input_rows"),)))(flow.expr_of(main, c[1]["args"][0], max_depth=6)) for c in sp)
+        ok7 = len(sp) == 2 and all((lambda e: e[0] == "call" and e[1].endswith("div_round_up") and e[2][0] == ("call", "std::vec::Vec::<T, A>::len", (("upvar", ROWS),)))(flow.expr_of(main, c[1]["args"][0], max_depth=6)) for c in sp)
         ctx.ob("WIRE-prf", "records=ceil(rows/chunk)", ok7, "both stages are sized div_round_up(input_rows.len(), CHUNK)" if ok7 else "a stage's record count is not ceil(rows / chunk size)", site_of(main, sp[0][0]) if sp else site_of(main))
     finally:
         flow.CLOSURE_DEFS = old
